@@ -207,10 +207,21 @@ noncomputable def mdx (a : Array (Cx ℝ)) (m iter : ℕ) (x : Cx ℝ) : Cx ℝ 
   if ScalarExt.lt 0 (Transc.fmax abp abm) then divT ⟨Transc.ofNat m, 0⟩ gp
   else polar (1 + Cx.abs x) (Transc.ofNat iter)
 
+/-- the two moduli `|g ± sq|` whose finiteness the model tests (repair D13: over `f64` they are non-finite when `g²`
+    overflowed; over ℝ the test never fires) -/
+noncomputable def mab (a : Array (Cx ℝ)) (m : ℕ) (x : Cx ℝ) : ℝ × ℝ :=
+  let r := laguerEval a m x
+  let g := divT r.2.1 r.1
+  let g2 := g * g
+  let h := g2 - nmul 2 (divT r.2.2.1 r.1)
+  let sq := csqrt (mulR (mulR h (Transc.ofNat m) - g2) (Transc.ofNat (m - 1)))
+  (Cx.abs (g + sq), Cx.abs (g - sq))
+
 /-- `laguerStep`, with the evaluation loop and the correction named -/
 theorem laguerStep_eq (a : Array (Cx ℝ)) (m iter : ℕ) (x : Cx ℝ) :
     laguerStep a m iter x =
       if Transc.le (Cx.abs (laguerEval a m x).1) ((laguerEval a m x).2.2.2 * Transc.eps) then none
+      else if !(isFinite (mab a m x).1 && isFinite (mab a m x).2) then none
       else if x == x - mdx a m iter x then none
       else if !(isFinite (x - mdx a m iter x).re && isFinite (x - mdx a m iter x).im) then none
       else if iter % 10 != 0 then some (x - mdx a m iter x)
